@@ -24,6 +24,7 @@ class Oracle(BaseOracle):
             sig = {"oracle": "equiv", "kind": d["kind"], "op": ev["op"], "seed": self.st.seed.name,
                    "depth": len(self.st.hist) + 1}
             sig["cause"] = findings.cause_of(ev, p, q, d["kind"], d)
+            sig["where"] = findings.where_of(ev, p)
             sig.update(feature_tags(ev, self.st, d))
             art = {"event": ev, "diff": {k: (oracles.jsonable_val(v) if k == "input" else v) for k, v in d.items()},
                    "before": str(p), "after": str(q), "reported_cfg": [list(x) for x in (exempt or [])]}
